@@ -37,6 +37,8 @@ def make_notebook():
     """notebooks/make_notebook.py imported by path."""
     global _MN
     if _MN is None:
+        import warnings
+        warnings.filterwarnings('ignore', category=SyntaxWarning)
         fn = os.path.join(REPO, 'notebooks', 'make_notebook.py')
         spec = importlib.util.spec_from_file_location('gv_make_notebook', fn)
         _MN = importlib.util.module_from_spec(spec)
